@@ -6,7 +6,7 @@
 **             alpha=N (alphabet {a,b,c..} size 2..4)   maxlen=L (content bound)
 **             ulen=K (operand strings: every string of length <= K, default 2)
 **             hashop=1 ("light" mode: hash(s) is an operation, not a query of the state oracle)
-**             pct=1 (print_to formats containing "%%" join the alphabet)
+**             pct=1 (print_to formats containing "%%" join the alphabet); pct=2 (also %$ / show_to of the String "%" into the target)
 **             prop=C16|C12    depth=N (0 = fixpoint)
 **
 ** State: the content of the String (plus, under ASan, the exact size of its allocation,
@@ -227,6 +227,7 @@ static int check(void) {
 enum { M_COPY, M_ASSIGN_INTO_FRESH, M_ASSIGN_EQUAL_VALUE, M_CONCAT_EQUAL_VALUE, M_REM_EQUAL_VALUE,
        M_ASSIGN_SELF, M_CONCAT_SELF, M_REM_SELF, M_HASH,
        M_PCT_FIRST, M_PCT_LAST = M_PCT_FIRST + 9,       /* print_to with "%%" in the format: 5 formats x {at the end, at 0} */
+       M_SHOWPCT_END, M_SHOWPCT_START, M_SHOWPCT_SHOW_TO,  /* pct=2: a String argument "%" shown into the target */
        F_ASSIGN_NULL, F_CONCAT_NULL, F_APPEND_NULL, F_ASSIGN_INT, F_CONCAT_INT, F_APPEND_INT,
        F_REM_NULL, F_MEM_NULL, F_REM_INT, F_MEM_INT, F_GET, F_SET, F_PRINT_NOARGS,
        NMISC };
@@ -240,6 +241,7 @@ static const char* miscname[] = { "s=copy(s)", "s=assign(new String,s)", "assign
   "rem(s, string of equal value)", "assign(s,s)", "concat(s,s)", "rem(s,s)", "hash(s)",
   "print_to(s,len,\"%%\")", "print_to(s,len,\"%%%s\",\"a\")", "print_to(s,len,\"%s%%\",\"a\")", "print_to(s,len,\"%%%%\")", "print_to(s,len,\"%s%%%s\",\"a\",\"b\")",
   "print_to(s,0,\"%%\")", "print_to(s,0,\"%%%s\",\"a\")", "print_to(s,0,\"%s%%\",\"a\")", "print_to(s,0,\"%%%%\")", "print_to(s,0,\"%s%%%s\",\"a\",\"b\")",
+  "print_to(s,len,\"%$\",String \"%\")", "print_to(s,0,\"%$\",String \"%\")", "show_to(String \"%\",s,len)",
   "assign(s,NULL)", "concat(s,NULL)", "append(s,NULL)", "assign(s,Int)", "concat(s,Int)", "append(s,Int)",
   "rem(s,NULL)", "mem(s,NULL)", "rem(s,Int)", "mem(s,Int)", "get(s,0)", "set(s,len+1,\"a\")", "print_to(s,len,\"%s\") no argument" };
 
@@ -568,6 +570,20 @@ static int apply_inner(int op) {
       vf_violation(LB("returned-position"), NULL, "print_to at %zu with format \"%s\" wrote \"%s\" and returned %d, expected %zu", pos, pf[k], outb, (int)ret, pos + (size_t)on); return VF_BAD;
     }
     return VF_OK; }
+  case M_SHOWPCT_END: case M_SHOWPCT_START: case M_SHOWPCT_SHOW_TO: {
+    /* the String "%" shown into the target: its C literal, quote percent quote, must arrive */
+    if (pct < 2) return VF_SKIP;
+    size_t pos = m == M_SHOWPCT_START ? 0 : rl;
+    if (m == M_SHOWPCT_START && rl == 0) return VF_SKIP;
+    if (pos + 3 > (size_t)L) return VF_SKIP;
+    setkind(m == M_SHOWPCT_END ? "print_to-%$-String-with-percent-at-end" : m == M_SHOWPCT_START ? "print_to-%$-String-with-percent-at-start" : "show_to-String-with-percent-at-end");
+    volatile int ret = -12345;
+    if (m == M_SHOWPCT_SHOW_TO) e = RUN(ret = show_to($S("%"), S, (int)pos));
+    else e = RUN(ret = print_to(S, (int)pos, "%$", $S("%")));
+    if (e) { vf_violation(LB("raises"), NULL, "showing the String \"%%\" into \"%s\" at %zu raised %s", mdl, pos, vf_exc_name(e)); return VF_BAD; }
+    strcpy(mdl + pos, "\"%\"");
+    if (ret != (int)pos + 3) { vf_violation(LB("returned-position"), NULL, "showing the String \"%%\" at %zu returned %d, expected %zu", pos, (int)ret, pos + 3); return VF_BAD; }
+    return VF_OK; }
   case M_HASH: {
     /* explicit query (light mode): compared with references that never call String_Hash */
     if (!hashop) return VF_SKIP;
@@ -735,8 +751,9 @@ static const char* len_class(int n) {
   return b;
 }
 
+static const char* l_feature;      /* when set: replaces the length class in the label */
 static const char* LL(const char* sym) {
-  snprintf(l_label, sizeof l_label, "string-ladder/%s/%s/%s", l_opname, len_class(l_N), sym);
+  snprintf(l_label, sizeof l_label, "string-ladder/%s/%s/%s", l_opname, l_feature ? l_feature : len_class(l_N), sym);
   return l_label;
 }
 
@@ -943,11 +960,103 @@ static void ladder_one(int N, int P, int op) {
   if (vf_want_sample()) vf_sample("%s", vf_cur);
 }
 
+static uint64_t n_showarg;
+
+/* ---- shown String arguments (formatted writes of a String INTO the target) ---------------
+** print_to(s, pos, "%$", arg), show_to(arg, s, pos), "<%$>" with literals around and "%$%$" twice,
+** for arguments that contain '%' (alone, doubled, looking like a directive, at the end, next to an
+** escape, behind 62..64 ordinary characters) and a few without, at EVERY position pos of an
+** 8-character target and of the empty target.  Expected text: target[0..pos) + the C literal of the
+** argument, written by an independent escaper.  Case id: "showarg a=<arg> op=<k> pos=<p> t=<target>".
+*/
+
+static const char* sa_args[] = { "%", "a%b", "%%", "%s", "100%", "%d items", "%$", "50% off", "a%%b", "%\n%", "\"%\"", "%c%i%f%%", "abc", "", "tab\there",
+  "0123456789012345678901234567890123456789012345678901234567890%1", "01234567890123456789012345678901234567890123456789012345678901%2", "012345678901234567890123456789012345678901234567890123456789012%3" };
+#define NSA ((int)(sizeof sa_args / sizeof sa_args[0]))
+static const char* sa_targets[] = { "abcdefgh", "" };
+enum { SA_PRINT_DOLLAR, SA_SHOW_TO, SA_FRAMED, SA_TWICE, SA_N };
+static const char* sa_opname[] = { "print_to-%$-of-String", "show_to-String", "print_to-literals-around-%$", "print_to-%$%$" };
+
+static size_t c_literal(char* out, size_t cap, const char* s_) {
+  /* independent reference for the shown form of a String: a double-quoted C literal */
+  size_t o = 0;
+  out[o++] = '"';
+  for (; *s_ && o + 4 < cap; s_++) {
+    char esc = 0;
+    switch (*s_) {
+      case '\a': esc = 'a'; break; case '\b': esc = 'b'; break; case '\f': esc = 'f'; break; case '\n': esc = 'n'; break;
+      case '\r': esc = 'r'; break; case '\t': esc = 't'; break; case '\v': esc = 'v'; break;
+      case '\\': esc = '\\'; break; case '\'': esc = '\''; break; case '"': esc = '"'; break; case '?': esc = '?'; break;
+    }
+    if (esc) { out[o++] = '\\'; out[o++] = esc; } else out[o++] = *s_;
+  }
+  out[o++] = '"'; out[o] = 0;
+  return o;
+}
+
+static void showarg_grid(void) {
+  int ra = -1, rop = -1, rpos = -1, rt = -1;
+  if (vf.replay && sscanf(vf.replay, "showarg a=%d op=%d pos=%d t=%d", &ra, &rop, &rpos, &rt) != 4) return;
+  static char lit[512];
+  for (int t = 0; t < 2; t++) for (int a = 0; a < NSA; a++) for (int op = 0; op < SA_N; op++) {
+    int tl = (int)strlen(sa_targets[t]);
+    for (int pos = 0; pos <= tl; pos++) {
+      if (vf.replay && !(a == ra && op == rop && pos == rpos && t == rt)) continue;
+      const char* arg = sa_args[a];
+      l_opname = sa_opname[op]; l_N = (int)strlen(arg);
+      l_feature = strchr(arg, '%') ? (strlen(arg) > 60 ? "argument-with-percent-after-60-characters" : "argument-with-percent") : "argument-without-percent";
+      static char ph[96]; snprintf(ph, sizeof ph, "string-ladder/%s/%s", l_opname, l_feature); vf.phase = ph;
+      char parg[96]; { size_t o = 0; for (const char* q = arg; *q && o + 5 < sizeof parg; q++) { if (*q == '\n') { parg[o++] = '\\'; parg[o++] = 'n'; } else if (*q == '\t') { parg[o++] = '\\'; parg[o++] = 't'; } else parg[o++] = *q; } parg[o] = 0; }
+      vf_set_cur("showarg a=%d op=%d pos=%d t=%d | %s of the String \"%s\" at position %d of \"%s\"", a, op, pos, t, l_opname, parg, pos, sa_targets[t]);
+      vf_watchdog(30);
+      c_literal(lit, sizeof lit, arg);
+      strcpy(l_payload, lit);                                       /* ladder_check asks mem() for it */
+      memcpy(l_expect, sa_targets[t], (size_t)pos); l_expect[pos] = 0;
+      if (op == SA_FRAMED) { strcat(l_expect, "<"); strcat(l_expect, lit); strcat(l_expect, ">"); }
+      else if (op == SA_TWICE) { strcat(l_expect, lit); strcat(l_expect, lit); }
+      else strcat(l_expect, lit);
+      int on = (int)strlen(l_expect) - pos;
+      var s = new_raw(String, $S((char*)sa_targets[t]));
+      const char* l_init = sa_targets[t];
+      var e = NULL; int bad = 0; volatile int ret = -12345;
+      if (op == SA_PRINT_DOLLAR) LOP(ret = print_to(s, pos, "%$", $S((char*)arg)));
+      else if (op == SA_SHOW_TO) LOP(ret = show_to($S((char*)arg), s, pos));
+      else if (op == SA_FRAMED) LOP(ret = print_to(s, pos, "<%$>", $S((char*)arg)));
+      else LOP(ret = print_to(s, pos, "%$%$", $S((char*)arg), $S((char*)arg)));
+      if (e) {
+        char now[80]; snprintf(now, sizeof now, "%.60s", c_str(s));
+        vf_violation(LL("raises"), NULL, "raised %s; the target now holds \"%s\"", vf_exc_name(e), now); bad = 1;
+      }
+      if (!bad && ret != pos + on) { vf_violation(LL("returned-position"), NULL, "returned %d, expected %d + %d", (int)ret, pos, on); bad = 1; }
+      if (!bad) bad = posthash_bad(l_expect);
+      if (!bad) bad = ladder_check(s, l_expect);
+      if (!bad) {
+        /* the next write lands right behind it */
+        static char before3[LCAP]; strcpy(before3, l_expect); l_init = before3;
+        strcat(l_expect, "Z");
+        LOP(append(s, $S("Z")));
+        if (e) { vf_violation(LL("raises"), NULL, "append after the formatted write raised %s", vf_exc_name(e)); bad = 1; }
+        if (!bad) bad = posthash_bad(l_expect);
+        if (!bad) bad = ladder_check(s, l_expect);
+      }
+      if (vf.replay) printf("  %s: %s\n", vf_cur, bad ? "VIOLATION" : "ok");
+      del_raw(s);
+      vf.transitions++; vf.executions++;
+      if (strchr(arg, '%')) vf.nontrivial++;
+      n_showarg++;
+      if (vf_want_sample()) vf_sample("%s", vf_cur);
+    }
+  }
+  l_feature = NULL;
+  vf_watchdog(0); vf_cur_valid = 0;
+}
+
 static void ladder(void) {
   static const int prefixes[] = { 0, 1, 5, 127, 128 };
   int maxn = (int)vf_param_i("maxn", 300);
   if (maxn > 1500) maxn = 1500;
   int rN = -1, rP = -1, rop = -1;
+  if (vf.replay && strncmp(vf.replay, "showarg", 7) == 0) { showarg_grid(); return; }
   if (vf.replay && sscanf(vf.replay, "ladder N=%d P=%d op=%d", &rN, &rP, &rop) != 3) { fprintf(stderr, "replay: cannot parse '%s'\n", vf.replay); _exit(2); }
   for (int N = 0; N <= maxn; N++) {
     for (size_t pi = 0; pi < sizeof prefixes / sizeof prefixes[0]; pi++) {
@@ -962,6 +1071,8 @@ static void ladder(void) {
   }
   vf_watchdog(0);
   vf_cur_valid = 0;
+  if (!vf.replay && vf_param_i("showargs", 1)) showarg_grid();
+  vf_extra("shown_string_arguments", "\"%" PRIu64 " formatted writes of %d String arguments (15 containing a percent sign) x %d operations x every position of an 8-character and of the empty target\"", n_showarg, NSA, (int)SA_N);
   vf_extra("ladder", "\"payload lengths 0..%d x prefix lengths {0,1,5,127,128} x %d operations\"", maxn, (int)LO_N);
 }
 
